@@ -16,6 +16,7 @@ package io
 //@ induct [C08.lemma-selcount-exact] (start int, stop int, step int, size int) z : implies(step >= 1 && start >= 0 && size >= 0, selcount(start, stop, step, size) >= 0 && forall(k, 0, size + 1, iff(start + k*step < min(size, stop), k < selcount(start, stop, step, size))))
 
 //@ func sliceSize(slice, size) returns (r)
+//@   canary [C08.canary-slice-size] r == 0
 //@   safety C08
 //@   requires len(slice) >= 3 && slice[2] >= 1 && slice[0] >= 0 && size >= 0
 //@   assigns nothing
